@@ -640,6 +640,9 @@ func streamCrash(g *G) { // C05
 				p = randBytes(g, 1+g.intn(12))
 			}
 			g.emit("syntax %s", encB(p))
+			// the same string registered on a brand-new router without interceptors: Handle agrees with CheckSyntax
+			g.routerLine(800000+g.n, routerOpt{name: "syn"})
+			g.emit("handle %d %s 1 %%- %s", 800000+g.n-1, encB(p), encL([]string{"GET"}))
 			g.emit("murl %s %s", encB(p), g.paramsFor(p+"{a}{b:x}"))
 			g.emit("url %d %s %s %s", rid, b2s(g.chance(0.5)), encB(p), g.paramsFor(p+"{a}"))
 		}
@@ -1214,8 +1217,9 @@ func dedup(l []string) []string {
 }
 
 func streamVersion(g *G) { // C15
-	versionLists := [][]string{{"v1"}, {"/v1"}, {"v1/"}, {"/v1/"}, {"v1", "v11"}, {"v11", "v1"}, {"v1", "v2", "v3"}, {""}, {"v1", ""}, {"/"}, {"a/b"}, nil}
-	paths := []string{"/v1/a", "/v1", "/v1/", "/v11/a", "/v1a", "v1/a", "/v2/v1/a", "/v1/v1/a", "", "/", "//", "/a/b/c", "/v3/", "\xff/v1/", "/V1/a"}
+	versionLists := [][]string{{"v1"}, {"/v1"}, {"v1/"}, {"/v1/"}, {"v1", "v11"}, {"v11", "v1"}, {"v1", "v2", "v3"}, {""}, {"v1", ""}, {"/"}, {"a/b"}, nil,
+		{"v1/x", "v1"}, {"v1", "v1/x"}, {"a", "a/b"}, {"a/b", "a"}} // two listed versions prefix one path: the first listed wins
+	paths := []string{"/v1/x/a", "/v1/x/", "/a/b/c", "/a/b/", "/v1/a", "/v1", "/v1/", "/v11/a", "/v1a", "v1/a", "/v2/v1/a", "/v1/v1/a", "", "/", "//", "/a/b/c", "/v3/", "\xff/v1/", "/V1/a"}
 	for !g.full() {
 		vs := versionLists[g.intn(len(versionLists))]
 		g.emit("pv-new %s", encVersions(vs))
